@@ -334,7 +334,11 @@ func genAdversarial(r *rand.Rand, idx int) *streamCase {
 		s, _ := genBlocks(r, n, 200, 4)
 		return s
 	}
-	switch idx % 8 {
+	k := idx % 8
+	if (k == 2 || k == 7) && idx%32 >= 8 { // the two buffer-sized kinds are expensive to replay: one in four rounds
+		k = []int{0, 1, 3, 6}[r.Intn(4)]
+	}
+	switch k {
 	case 0: // huge length values (int conversion)
 		c.kind = "adv-hugelen"
 		l := hugeLens[r.Intn(len(hugeLens))]
